@@ -1,7 +1,251 @@
+// Query recorder: raw answers of the read-only API of TopologyKernel for every
+// argument over the (small) mesh.  No interpretation, no expected values; the
+// only decisions taken here are contract guards (a query whose documented
+// precondition is "incidence kind X enabled" is only called when X is enabled).
+//
+// level bits: 1 upward queries (C01)   2 iterator / circulator protocol (C05)
+//             4 mirror / orientation (C08)   8 in-cell adjacency (C09)
+//            16 lookups (C10)
 #include "queries.hh"
+#include <set>
+
+using namespace OpenVolumeMesh;
+using vx::Json;
+
 namespace vq {
-void dump_queries(vx::Json &j, const OpenVolumeMesh::TopologyKernel &m, int level) {
-    (void)m; (void)level;
-    j.begin_obj(); j.end_obj();
+
+static const size_t CAP = 80;   // walks are cut here (a sentinel -99 is appended)
+
+template <class It> static void fwd(Json &j, It it) {
+    j.begin_arr();
+    size_t n = 0;
+    while (it.valid() && n < CAP) { j.val((*it).idx()); ++it; ++n; }
+    if (n >= CAP) j.val(-99);
+    j.end_arr();
 }
+
+// protocol record of one circulator (begin, end) pair for a given max_laps:
+//   w   forward walk while valid()
+//   rf  the same through begin != end
+//   bk  k steps forward then k steps backward from begin: handles and laps after every step
+//   eq  begin advanced |w| times == end
+template <class Pair> static void proto(Json &j, Pair pr, int laps) {
+    auto b = pr.first; auto e = pr.second;
+    j.begin_obj();
+    j.kv("laps", laps);
+    j.kv("v0", (bool)b.valid());
+    j.key("w"); fwd(j, b);
+    j.key("rf"); { j.begin_arr(); size_t n = 0; for (auto it = b; it != e && n < CAP; ++it, ++n) j.val((*it).idx()); if (n >= CAP) j.val(-99); j.end_arr(); }
+    size_t len = 0; { auto it = b; while (it.valid() && len < CAP) { ++it; ++len; } }
+    if (b.valid() && len < CAP) {
+        { auto it = b; for (size_t i = 0; i < len; ++i) ++it; j.kv("eq", (bool)(it == e)); }
+        // forward k = min(len-1, n1+1) steps, then back the same number
+        size_t n1 = len / (size_t)laps;
+        size_t k = std::min(len - 1, n1 + 1);
+        j.key("bk"); j.begin_arr();
+        auto it = b;
+        j.begin_arr(); j.val((*it).idx()); j.val(it.lap()); j.val((bool)it.valid()); j.end_arr();
+        for (size_t i = 0; i < k; ++i) { ++it; j.begin_arr(); j.val((*it).idx()); j.val(it.lap()); j.val((bool)it.valid()); j.end_arr(); }
+        for (size_t i = 0; i < k; ++i) { --it; j.begin_arr(); j.val((*it).idx()); j.val(it.lap()); j.val((bool)it.valid()); j.end_arr(); }
+        j.end_arr();
+    }
+    j.end_obj();
 }
+
+#define CIRC(NAME, HT, N, DELTEST, ITER, RANGE)                                             \
+    do {                                                                                     \
+        j.key(NAME); j.begin_arr();                                                          \
+        for (int i = 0; i < (int)(N); ++i) {                                                 \
+            HT h(i);                                                                         \
+            if (DELTEST) { j.begin_arr(); j.val(-1); j.end_arr(); continue; }                \
+            if (level & 2) {                                                                 \
+                j.begin_arr();                                                               \
+                for (int laps = 1; laps <= 3; ++laps) proto(j, m.RANGE(h, laps), laps);       \
+                j.end_arr();                                                                 \
+            } else {                                                                         \
+                fwd(j, m.ITER(h, 1));                                                        \
+            }                                                                                \
+        }                                                                                    \
+        j.end_arr();                                                                         \
+    } while (0)
+
+template <class It> static void entity_proto(Json &j, std::pair<It, It> pr, It viaiter) {
+    j.begin_obj();
+    j.key("w"); fwd(j, viaiter);
+    j.key("rf"); { j.begin_arr(); size_t n = 0; for (auto it = pr.first; it != pr.second && n < CAP * 4; ++it, ++n) j.val((*it).idx()); j.end_arr(); }
+    // backward from end: as many steps as the forward walk has entries (the valid flag
+    // is documented not to be restored by --, so positions are compared, not the flag)
+    size_t len = 0; { auto it = pr.first; while (it != pr.second && len < CAP * 4) { ++it; ++len; } }
+    j.key("bk"); { j.begin_arr(); auto it = pr.second; for (size_t n = 0; n < len; ++n) { --it; j.val((*it).idx()); } j.end_arr(); }
+    j.kv("v0", (bool)pr.first.valid());
+    j.end_obj();
+}
+
+template <class It> static void bnd_walk(Json &j, It it) {
+    j.begin_arr();
+    size_t n = 0;
+    while (it.valid() && n < CAP * 4) { j.val((*it).idx()); ++it; ++n; }
+    j.end_arr();
+}
+
+void dump_queries(Json &j, const TopologyKernel &m, int level) {
+    const int nv = (int)m.n_vertices(), ne = (int)m.n_edges(), nf = (int)m.n_faces(), nc = (int)m.n_cells();
+    const bool vbu = m.has_vertex_bottom_up_incidences(), ebu = m.has_edge_bottom_up_incidences(), fbu = m.has_face_bottom_up_incidences();
+    j.begin_obj();
+    j.kv("lvl", level);
+    if (level & 3) {
+        // upward circulators (safe to construct with disabled incidences: must then be invalid)
+        CIRC("voh", VertexHandle, nv, m.is_deleted(h), voh_iter, outgoing_halfedges);
+        CIRC("vih", VertexHandle, nv, m.is_deleted(h), vih_iter, incoming_halfedges);
+        CIRC("vv", VertexHandle, nv, m.is_deleted(h), vv_iter, vertex_vertices);
+        CIRC("ve", VertexHandle, nv, m.is_deleted(h), ve_iter, vertex_edges);
+        CIRC("vhf", VertexHandle, nv, m.is_deleted(h), vhf_iter, vertex_halffaces);
+        CIRC("vf", VertexHandle, nv, m.is_deleted(h), vf_iter, vertex_faces);
+        CIRC("vc", VertexHandle, nv, m.is_deleted(h), vc_iter, vertex_cells);
+        CIRC("hehf", HalfEdgeHandle, 2 * ne, m.is_deleted(h), hehf_iter, halfedge_halffaces);
+        CIRC("hef", HalfEdgeHandle, 2 * ne, m.is_deleted(h), hef_iter, halfedge_faces);
+        CIRC("hec", HalfEdgeHandle, 2 * ne, m.is_deleted(h), hec_iter, halfedge_cells);
+        CIRC("ehf", EdgeHandle, ne, m.is_deleted(h), ehf_iter, edge_halffaces);
+        CIRC("ef", EdgeHandle, ne, m.is_deleted(h), ef_iter, edge_faces);
+        CIRC("ec", EdgeHandle, ne, m.is_deleted(h), ec_iter, edge_cells);
+        CIRC("cc", CellHandle, nc, m.is_deleted(h), cc_iter, cell_cells);
+    }
+    if (level & 1) {
+        // valences and boundary predicates, only inside their documented preconditions
+        j.key("valv"); j.begin_arr(); for (int i = 0; i < nv; ++i) j.val((long long)((vbu && !m.is_deleted(VertexHandle(i))) ? (long long)m.valence(VertexHandle(i)) : -1)); j.end_arr();
+        j.key("vale"); j.begin_arr(); for (int i = 0; i < ne; ++i) j.val((long long)((ebu && !m.is_deleted(EdgeHandle(i))) ? (long long)m.valence(EdgeHandle(i)) : -1)); j.end_arr();
+        auto tri = [&](bool can, bool del, auto f) { return (long long)((can && !del) ? (f() ? 1 : 0) : -1); };
+        j.key("bndhf"); j.begin_arr(); for (int i = 0; i < 2 * nf; ++i) { HalfFaceHandle h(i); j.val(tri(fbu, m.is_deleted(h), [&] { return m.is_boundary(h); })); } j.end_arr();
+        j.key("bndf"); j.begin_arr(); for (int i = 0; i < nf; ++i) { FaceHandle h(i); j.val(tri(fbu, m.is_deleted(h), [&] { return m.is_boundary(h); })); } j.end_arr();
+        j.key("bndhe"); j.begin_arr(); for (int i = 0; i < 2 * ne; ++i) { HalfEdgeHandle h(i); j.val(tri(fbu && ebu, m.is_deleted(h), [&] { return m.is_boundary(h); })); } j.end_arr();
+        j.key("bnde"); j.begin_arr(); for (int i = 0; i < ne; ++i) { EdgeHandle h(i); j.val(tri(fbu && ebu, m.is_deleted(h), [&] { return m.is_boundary(h); })); } j.end_arr();
+        j.key("bndv"); j.begin_arr(); for (int i = 0; i < nv; ++i) { VertexHandle h(i); j.val(tri(fbu && ebu && vbu, m.is_deleted(h), [&] { return m.is_boundary(h); })); } j.end_arr();
+        j.key("bndc"); j.begin_arr(); for (int i = 0; i < nc; ++i) { CellHandle h(i); j.val(tri(fbu, m.is_deleted(h), [&] { return m.is_boundary(h); })); } j.end_arr();
+        j.key("bv"); bnd_walk(j, m.bv_iter());
+        j.key("bhe"); bnd_walk(j, m.bhe_iter());
+        j.key("be"); bnd_walk(j, m.be_iter());
+        j.key("bhf"); bnd_walk(j, m.bhf_iter());
+        j.key("bf"); bnd_walk(j, m.bf_iter());
+        j.key("bc"); bnd_walk(j, m.bc_iter());
+        j.key("incq"); j.begin_arr(); for (int i = 0; i < 2 * nf; ++i) { HalfFaceHandle h(i); j.val((long long)((fbu && !m.is_deleted(h)) ? m.incident_cell(h).idx() : -9)); } j.end_arr();
+    }
+    if (level & 2) {
+        // downward circulators and entity iterators
+        CIRC("hfhe", HalfFaceHandle, 2 * nf, m.is_deleted(h), hfhe_iter, halfface_halfedges);
+        CIRC("hfe", HalfFaceHandle, 2 * nf, m.is_deleted(h), hfe_iter, halfface_edges);
+        CIRC("hfv", HalfFaceHandle, 2 * nf, m.is_deleted(h), hfv_iter, halfface_vertices);
+        CIRC("fv", FaceHandle, nf, m.is_deleted(h), fv_iter, face_vertices);
+        CIRC("fhe", FaceHandle, nf, m.is_deleted(h), fhe_iter, face_halfedges);
+        CIRC("fe", FaceHandle, nf, m.is_deleted(h), fe_iter, face_edges);
+        CIRC("cv", CellHandle, nc, m.is_deleted(h), cv_iter, cell_vertices);
+        CIRC("che", CellHandle, nc, m.is_deleted(h), che_iter, cell_halfedges);
+        CIRC("ce", CellHandle, nc, m.is_deleted(h), ce_iter, cell_edges);
+        CIRC("chf", CellHandle, nc, m.is_deleted(h), chf_iter, cell_halffaces);
+        CIRC("cf", CellHandle, nc, m.is_deleted(h), cf_iter, cell_faces);
+        CIRC("bhfhf", HalfFaceHandle, 2 * nf, (m.is_deleted(h) || !fbu || !m.is_boundary(h)), bhfhf_iter, boundary_halfface_halffaces);
+        j.key("itv"); entity_proto(j, m.vertices(), m.v_iter());
+        j.key("ite"); entity_proto(j, m.edges(), m.e_iter());
+        j.key("ithe"); entity_proto(j, m.halfedges(), m.he_iter());
+        j.key("itf"); entity_proto(j, m.faces(), m.f_iter());
+        j.key("ithf"); entity_proto(j, m.halffaces(), m.hf_iter());
+        j.key("itc"); entity_proto(j, m.cells(), m.c_iter());
+    }
+    if (level & 4) {
+        // orientation algebra as the API reports it
+        j.key("hev"); j.begin_arr();
+        for (int i = 0; i < 2 * ne; ++i) { HalfEdgeHandle h(i); auto e = m.halfedge(h); j.begin_arr(); j.val(e.from_vertex().idx()); j.val(e.to_vertex().idx());
+            j.val(m.from_vertex_handle(h).idx()); j.val(m.to_vertex_handle(h).idx()); j.val(m.opposite_halfedge_handle(h).idx());
+            auto o = m.opposite_halfedge(h); j.val(o.from_vertex().idx()); j.val(o.to_vertex().idx()); j.end_arr(); }
+        j.end_arr();
+        j.key("hfhes"); j.begin_arr();
+        for (int i = 0; i < 2 * nf; ++i) { HalfFaceHandle h(i); j.begin_arr(); for (auto x : m.halfface(h).halfedges()) j.val(x.idx()); j.end_arr(); }
+        j.end_arr();
+        j.key("hfopp"); j.begin_arr();
+        for (int i = 0; i < 2 * nf; ++i) { HalfFaceHandle h(i); j.begin_arr(); for (auto x : m.opposite_halfface(h).halfedges()) j.val(x.idx()); j.end_arr(); }
+        j.end_arr();
+        // next / prev inside a halfface, for every halfedge of the mesh
+        j.key("nxt"); j.begin_arr();
+        for (int i = 0; i < 2 * nf; ++i) { HalfFaceHandle hf(i); if (m.is_deleted(hf)) continue;
+            for (int k = 0; k < 2 * ne; ++k) { HalfEdgeHandle he(k); if (m.is_deleted(he)) continue;
+                j.begin_arr(); j.val(i); j.val(k); j.val(m.next_halfedge_in_halfface(he, hf).idx()); j.val(m.prev_halfedge_in_halfface(he, hf).idx()); j.end_arr(); } }
+        j.end_arr();
+        if (!(level & 2)) {
+            CIRC("hfhe", HalfFaceHandle, 2 * nf, m.is_deleted(h), hfhe_iter, halfface_halfedges);
+            CIRC("hfe", HalfFaceHandle, 2 * nf, m.is_deleted(h), hfe_iter, halfface_edges);
+            CIRC("hfv", HalfFaceHandle, 2 * nf, m.is_deleted(h), hfv_iter, halfface_vertices);
+        }
+    }
+    if ((level & 8) && fbu) {
+        // adjacent_halfface_in_cell for every (halfface with a cell, live halfedge)
+        j.key("adj"); j.begin_arr();
+        for (int i = 0; i < 2 * nf; ++i) { HalfFaceHandle hf(i); if (m.is_deleted(hf)) continue;
+            if (!m.incident_cell(hf).is_valid()) continue;
+            for (int k = 0; k < 2 * ne; ++k) { HalfEdgeHandle he(k); if (m.is_deleted(he)) continue;
+                j.begin_arr(); j.val(i); j.val(k); j.val(m.adjacent_halfface_in_cell(hf, he).idx()); j.end_arr(); } }
+        j.end_arr();
+    }
+    if (level & 16) {
+        // lookups over every argument tuple; the incidence-based ones only with their kinds enabled
+        std::vector<int> lv; for (int i = 0; i < nv; ++i) if (!m.is_deleted(VertexHandle(i))) lv.push_back(i);
+        std::vector<int> lhe; for (int i = 0; i < 2 * ne; ++i) if (!m.is_deleted(HalfEdgeHandle(i))) lhe.push_back(i);
+        if (vbu) {
+            j.key("fndhe"); j.begin_arr();
+            for (int a : lv) for (int b : lv) { j.begin_arr(); j.val(a); j.val(b); j.val(m.find_halfedge(VertexHandle(a), VertexHandle(b)).idx()); j.end_arr(); }
+            j.end_arr();
+        }
+        if (vbu && ebu) {
+            j.key("fhf3"); j.begin_arr();   // find_halfface(vertices) and find_halfface_extensive on triples
+            for (int a : lv) for (int b : lv) for (int c : lv) {
+                std::vector<VertexHandle> vs{VertexHandle(a), VertexHandle(b), VertexHandle(c)};
+                j.begin_arr(); j.val(a); j.val(b); j.val(c); j.val(m.find_halfface(vs).idx()); j.val(m.find_halfface_extensive(vs).idx()); j.end_arr(); }
+            j.end_arr();
+            if (lv.size() <= 6) {
+                j.key("fhf4"); j.begin_arr();
+                for (int a : lv) for (int b : lv) for (int c : lv) for (int d : lv) {
+                    std::vector<VertexHandle> vs{VertexHandle(a), VertexHandle(b), VertexHandle(c), VertexHandle(d)};
+                    j.begin_arr(); j.val(a); j.val(b); j.val(c); j.val(d); j.val(m.find_halfface(vs).idx()); j.val(m.find_halfface_extensive(vs).idx()); j.end_arr(); }
+                j.end_arr();
+            }
+        }
+        if (ebu) {
+            j.key("fhfhe"); j.begin_arr();
+            for (int a : lhe) for (int b : lhe) { std::vector<HalfEdgeHandle> hs{HalfEdgeHandle(a), HalfEdgeHandle(b)};
+                j.begin_arr(); j.val(a); j.val(b); j.val(m.find_halfface(hs).idx()); j.end_arr(); }
+            j.end_arr();
+        }
+        j.key("fhec"); j.begin_arr();   // find_halfedge_in_cell
+        for (int c = 0; c < nc; ++c) { if (m.is_deleted(CellHandle(c))) continue;
+            for (int a : lv) for (int b : lv) { j.begin_arr(); j.val(c); j.val(a); j.val(b); j.val(m.find_halfedge_in_cell(VertexHandle(a), VertexHandle(b), CellHandle(c)).idx()); j.end_arr(); } }
+        j.end_arr();
+        if (fbu) {
+            j.key("fhfc"); j.begin_arr();   // find_halfface_in_cell on triples
+            for (int c = 0; c < nc; ++c) { if (m.is_deleted(CellHandle(c))) continue;
+                for (int a : lv) for (int b : lv) for (int d : lv) { std::vector<VertexHandle> vs{VertexHandle(a), VertexHandle(b), VertexHandle(d)};
+                    j.begin_arr(); j.val(c); j.val(a); j.val(b); j.val(d); j.val(m.find_halfface_in_cell(vs, CellHandle(c)).idx()); j.end_arr(); } }
+            j.end_arr();
+        }
+        j.key("ghfv"); j.begin_arr();   // get_halfface_vertices, three forms
+        for (int i = 0; i < 2 * nf; ++i) { HalfFaceHandle hf(i); if (m.is_deleted(hf)) continue;
+            j.begin_arr(); j.val(i);
+            { j.begin_arr(); for (auto v : m.get_halfface_vertices(hf)) j.val(v.idx()); j.end_arr(); }
+            j.begin_arr();
+            for (auto v : m.halfface(hf).halfedges()) { (void)v; }
+            { std::set<int> seen; for (auto he : m.halfface(hf).halfedges()) { int v = m.from_vertex_handle(he).idx(); if (!seen.insert(v).second) continue;
+                j.begin_arr(); j.val(v); for (auto x : m.get_halfface_vertices(hf, VertexHandle(v))) j.val(x.idx()); j.end_arr(); } }
+            j.end_arr();
+            j.begin_arr();
+            for (auto he : m.halfface(hf).halfedges()) { j.begin_arr(); j.val(he.idx()); for (auto x : m.get_halfface_vertices(hf, he)) j.val(x.idx()); j.end_arr(); }
+            j.end_arr();
+            j.end_arr(); }
+        j.end_arr();
+        j.key("isinc"); j.begin_arr();
+        for (int f = 0; f < nf; ++f) { if (m.is_deleted(FaceHandle(f))) continue;
+            for (int e = 0; e < ne; ++e) { if (m.is_deleted(EdgeHandle(e))) continue;
+                j.begin_arr(); j.val(f); j.val(e); j.val(m.is_incident(FaceHandle(f), EdgeHandle(e))); j.end_arr(); } }
+        j.end_arr();
+        j.key("nvc"); j.begin_arr(); for (int c = 0; c < nc; ++c) j.val((long long)(m.is_deleted(CellHandle(c)) ? -1 : (long long)m.n_vertices_in_cell(CellHandle(c)))); j.end_arr();
+    }
+    j.end_obj();
+}
+
+} // namespace vq
